@@ -306,7 +306,11 @@ func CheckC04(run *Run) {
 		default:
 			j, err := CanonJSONText(c.jsonTxt)
 			if err != nil {
-				run.Fatal("codec output is not JSON: %v: %s", err, c.jsonTxt)
+				// the emitted MarshalJSON returned text that is not JSON at all
+				obs["json"] = map[string]any{"not_json": true}
+				obs["back"] = "skipped"
+				holds, note = false, fmt.Sprintf("the codec's output is not JSON (%v)", err)
+				break
 			}
 			obs["json"] = okObj(j)
 			if c.backErr {
